@@ -31,6 +31,11 @@ func (self ValueList) Display() (string, *Interrupt) {
 }
 
 func (self ValueList) IsEqual(other Value) (bool, *Interrupt) {
+	// values of different kinds may meet where the static type is `any` (inside an option, an any-object)
+	if other.Kind() != self.Kind() {
+		return false, nil
+	}
+
 	otherList := other.(ValueList)
 	// check length
 	if len(*otherList.Values) != len(*self.Values) {
